@@ -221,7 +221,7 @@ def fromdelta_vs_civil(days: int, secs: int) -> bool:
     return civil_days(_astro(d.year), d.month, d.day) == days and d.hour * 3600 + d.minute * 60 + d.second == secs
 
 
-@ob(budget=500, bound='delta days in [-366, 3652058] (datetime range and 1 BCE), seconds 0..86399', funcs=[D + ':AbstractDateTime.fromdelta'])
+@ob(budget=300, bound='delta days in [-366, 3652058] (datetime range and 1 BCE), seconds 0..86399', funcs=[D + ':AbstractDateTime.fromdelta'])
 def fromdelta_vs_civil_near(days: int, secs: int) -> bool:
     """
     pre: -366 <= days <= 3652058 and 0 <= secs < 86400
